@@ -94,9 +94,19 @@ class Law:
         return s
 
     def terms_on(self, lo, hi):
-        """the terms valid on (lo, hi), assumed to lie inside one piece (or outside the support)"""
+        """the terms valid on (lo, hi), assumed to lie inside one piece (or outside the support).  The piece is found by
+        an interior point, so that end points which differ only by the rounding of a 60-digit sum (e.g. `lo + 0` against
+        the exact, longer, decimal expansion of the double `lo`) do not matter."""
+        if lo == NINF and hi == INF:
+            mid = ZERO
+        elif lo == NINF:
+            mid = hi - 1
+        elif hi == INF:
+            mid = lo + 1
+        else:
+            mid = (lo + hi) / 2
         for a, b, terms in self.pieces:
-            if a <= lo and hi <= b:
+            if a < mid < b:
                 return terms
         return []
 
@@ -201,6 +211,10 @@ def fold_point(v, lo, hi):
     m = (v - lo) % (2 * w)
     if m < 0:
         m += 2 * w
+    if m == 0:
+        return lo
+    if m == w:
+        return hi
     return lo + m if m <= w else lo + 2 * w - m
 
 
@@ -268,9 +282,22 @@ def _int_two(A, B, rho, yr, s, t):
     return at(t) - at(s)
 
 
+_SLIVER = D(10) ** -45
+
+
 def _sub_intervals(P, Q):
+    """common refinement of the pieces of P and Q.  Break-points that agree to 45 significant digits are the same point
+    computed twice (context precision is 60 digits, the exact expansion of a double can be longer): the sliver between
+    them is dropped — it would otherwise look like a region where one law has no density at all."""
     pts = sorted(P.breakpoints() | Q.breakpoints())
-    return [(a, b) for a, b in zip(pts, pts[1:]) if a < b]
+    out = []
+    for a, b in zip(pts, pts[1:]):
+        if not a < b:
+            continue
+        if a != NINF and b != INF and (b - a) <= _SLIVER * max(abs(a), abs(b)):
+            continue
+        out.append((a, b))
+    return out
 
 
 def hockey_stick(P, Q, alpha):
